@@ -565,6 +565,10 @@ def build(tier, seed):
     for k in ('G', 'Gnc', 'LN', 'LNnc', 'TG', 'P'):
         specs.append(rp.Cov(popbuild.elem(k, 1), 1))
     specs.append(rp.Cov(rp.G(2), 2, [[0, 1], [1, 0]]))
+    # only the location (or only the scale) is covariate-dependent
+    for k in ('G', 'Gnc', 'LN', 'LNnc', 'TG'):
+        for sel in ([[0, 0]], [[1, 0]]):
+            specs.append(rp.Cov(popbuild.elem(k, 1), 1, sel))
     # (every class in both tiers)
     pairs = ['G', 'LNnc', 'TG', 'P', 'H', 'Cov(G)', 'Cov(LNnc)', 'Gnc', 'LN',
              'Cov(P)', 'Cov(TG)']
